@@ -128,6 +128,21 @@ type Far struct {
 	M map[string]int8
 }
 
+// calmFar zeroes the padding of a Far value (all but its last byte): a decoder or encoder that mis-addresses the
+// fields behind it then reads zeros instead of random bytes as string/slice headers - a wrong value, reported
+// with its input, rather than a wild pointer that kills the harness.
+func calmFar(v reflect.Value) {
+	for v.Kind() == reflect.Ptr && !v.IsNil() {
+		v = v.Elem()
+	}
+	if v.Type() == reflect.TypeOf(Far{}) && v.CanAddr() {
+		f := v.Addr().Interface().(*Far)
+		last := f.Pad[len(f.Pad)-1]
+		f.Pad = [66000]byte{}
+		f.Pad[len(f.Pad)-1] = last | 1
+	}
+}
+
 var oracleCorpus = []reflect.Type{reflect.TypeOf(Emb{}), reflect.TypeOf([]Emb(nil)), reflect.TypeOf(map[string]*Emb(nil)), reflect.TypeOf(MyBytes(nil)),
 	reflect.TypeOf(Far{}), reflect.TypeOf((*Far)(nil))}
 
@@ -305,6 +320,7 @@ func modelStream(r *vh.Rng, n int, casesPath string, sum *vh.Summary) {
 		}
 		vo := vh.ValOpts{BigLens: r.Chance(1, 3), MaxLen: 5, RawStrings: r.Chance(1, 8)}
 		v := vh.RandValue(r, t, vo)
+		calmFar(v)
 		o := vh.RandEncOpts(r, "cbor")
 		randGenericOpts(r, o)
 		h := vh.NewHandle("cbor", o)
@@ -560,6 +576,7 @@ func oracleStream(r *vh.Rng, n int, sum *vh.Summary) {
 			vo.NoNaN, vo.NoInf = true, true
 		}
 		v := vh.RandValue(r, t, vo)
+		calmFar(v)
 		_, ok := roundTrip(format, o, t, v, r, sum, "oracle", i)
 		key := ""
 		if ok {
